@@ -445,10 +445,16 @@ class Queue(Greenlet):
             raise
         else:
             if isinstance(results, collections.abc.Mapping):
+                # An address may be listed more than once in the envelope; the
+                # result given for it settles every one of its positions.
+                results = [([i for i, r in enumerate(envelope.recipients)
+                             if r == rcpt], rcpt, res)
+                           for rcpt, res in results.items()]
                 self._handle_partial_relay(id, envelope, attempts, results)
             elif isinstance(results, collections.abc.Sequence):
-                results = {rcpt: res for rcpt, res
-                           in zip(envelope.recipients, results)}
+                # One result per position of the recipient list.
+                results = [([i], rcpt, res) for i, (rcpt, res)
+                           in enumerate(zip(envelope.recipients, results))]
                 self._handle_partial_relay(id, envelope, attempts, results)
             else:
                 self._remove(id)
@@ -457,11 +463,7 @@ class Queue(Greenlet):
         delivered = set()
         tempfails = []
         permfails = []
-        for rcpt, rcpt_res in results.items():
-            # An address may be listed more than once in the envelope; the
-            # result given for it settles every one of its positions.
-            positions = [i for i, r in enumerate(envelope.recipients)
-                         if r == rcpt]
+        for positions, rcpt, rcpt_res in results:
             if rcpt_res is None or isinstance(rcpt_res, Reply):
                 delivered.update(positions)
             elif isinstance(rcpt_res, PermanentRelayError):
